@@ -1,7 +1,12 @@
 SPECIFICATION Spec
 CONSTANTS
- MaxImports = 1
- UseLayouts = {"plain", "tight", "trail", "oneline", "stray"}
+  MaxImports = 1
+  FewMax = 2
+  UseLayouts = {"plain", "tight", "trail", "oneline", "stray"}
   Layouts3 = {"plain", "tight", "trail"}
   NExporters = {1, 2}
+  ExtMaxFull = 0
+  ExtMaxLite = 1
+  LiteCmts = {"none", "line"}
+  ExtLayouts = {"plain", "trail"}
 INVARIANTS ReadsBack
